@@ -440,7 +440,7 @@ S(id="RG.rules", props=["C10", "C14"], spec="rgloop.spec.c", harness="h_rg_rules
        "the start symbol is known (what the NO_RULES test of RG.tail relies on)",
   assumes=["A7': negative codes are never in the table here", "R8: region cut on every run, loop body replaced by a call of the R7 function (proved by RG.rule, used here through a reduced contract)",
            "termination of the loop is the callback's business (no variant)"])
-S(id="RG.check", props=["C10"], spec="rgcheck.spec.c", harness="h_check", mode="U", loops=True, n_loops=2, canaries=2, enforce=["check_grammar/check_c"],
+S(id="RG.check", props=["C10"], spec="rgcheck.spec.c", harness="h_check", mode="U", loops=True, n_loops=2, canaries=2, object_bits=10, enforce=["check_grammar/check_c"],
   replace=["verif_error_exit/err_check_c", "set_empty_access_derives/flags1_c", "set_loop_p/flags2_c", "create_first_follow_sets/first_follow_c", "nonterm_get/nonterm_get_c"],
   functions=["check_grammar"],
   what="given the flags (arbitrary values on real nonterminal records): both flag passes run, in order, before anything is tested; NONTERM_DERIVATION / UNACCESSIBLE_NONTERM / "
